@@ -28,7 +28,8 @@ REQUIRED_CELLS = {t: ("noise:blank", "noise:whitespace", "noise:comment", "noise
                       "noise:trailing-comment", "noise:short-row", "noise:extra-columns", "noise:padding",
                       "reader:snapshots", "reader:interactions", "keys:snapshots3", "keys:snapshots4",
                       "keys:interactions", "conv:nodetype=str", "conv:nodetype=int", "conv:timestamps x60",
-                      "typeerror:lookup", "typeerror:zerodiv", "compact:beyond-2**53", "keys:beyond-2**53")
+                      "typeerror:lookup", "typeerror:zerodiv", "compact:beyond-2**53", "keys:beyond-2**53",
+                      "ids:#-with-marker-%", "keys:zero-padded-duplicates")
                   for t in ("quick", "thorough")}
 
 
@@ -143,15 +144,21 @@ def noise_case(ctx, dn, lines_override=None):
     rows = valid_rows(rng, reader, m)
     if not rows:
         return
+    # the converters vary from one parse to the next in the same process (int / str ids; plain or scaled
+    # integer timestamps): a conversion is a function of the field AND the requested type
+    nconv = rng.choice((int, int, str))
+    pref = ""
+    if marker == "%" and nconv is str and rng.random() < 0.6:
+        # '#' is an ordinary character when the comment marker is '%': ids may start with it
+        pref = "#"
+        rows = [[pref + str(r[0]), pref + str(r[1])] + list(r[2:]) for r in rows]
+        ctx.cell("ids:#-with-marker-%")
     lines, clean = noisy(ctx, rng, rows, reader, delim, marker)
     via = rng.random() < 0.5
     ctx.cases += 1
     ctx.cell("reader:" + reader)
     ctx.case = dict(workload="NOISE", reader=reader, directed=directed, delimiter=delim, comments=marker,
                     lines=lines, clean=clean, via_file=via)
-    # the converters vary from one parse to the next in the same process (int / str ids; plain or scaled
-    # integer timestamps): a conversion is a function of the field AND the requested type
-    nconv = rng.choice((int, int, str))
     scale = rng.choice((1, 1, 60))
     tconv = int if scale == 1 else (lambda x: int(x) * 60)
     ctx.cell("conv:nodetype=%s" % nconv.__name__)
@@ -165,7 +172,7 @@ def noise_case(ctx, dn, lines_override=None):
             return
         raise
     ctx.expect("noisy==clean", observe.diff(observe.snapshot(B), observe.snapshot(A)), [], dict(lines=lines))
-    h = iohelp.retype(m, conv=nconv)
+    h = iohelp.retype(m, conv=(lambda x: pref + str(x)) if pref else nconv)
     if scale != 1:
         # a span t..e-1 read with scaled stamps is t*60 .. e*60-1: rebuild the expectation from the rows
         h = rows_model(rows, reader, directed, nconv, scale)
@@ -301,8 +308,21 @@ def keys_case(ctx, dn):
     d = iohelp.tmpdir()
     try:
         path = os.path.join(d, "keys.txt")
+        # some stamps are written zero-padded in some rows ("07" and "7" are one timestamp)
+        pad = rng.random() < 0.3 and not offset
+        if pad:
+            ctx.cell("keys:zero-padded-duplicates")
+
+        def rr(r):
+            if not pad:
+                return render(r, delim)
+            f2 = [str(x) for x in r]
+            for i in (range(2, len(f2)) if reader == "snapshots" else (3,)):
+                if rng.random() < 0.5 and not f2[i].startswith("-"):
+                    f2[i] = "0" + f2[i]
+            return (delim or " ").join(f2)
         with open(path, "wb") as f:
-            f.write(("\n".join(render(r, delim) for r in rows) + "\n").encode("utf-8"))
+            f.write(("\n".join(rr(r) for r in rows) + "\n").encode("utf-8"))
         kw = dict(directed=directed, nodetype=int, timestamptype=int, keys=True)
         if delim is not None:
             kw["delimiter"] = delim
